@@ -137,6 +137,17 @@ def install_invariant():
             return True
         if len(self._edges) != len(self._edge_hashmap):
             return False
+        if len(self._edges) > 48:
+            # large sets (MCMC edge sets): sampled positions, full sweep every 4096th evaluation
+            n = len(self._edges)
+            c = _contract["evals"]
+            if c % 4096:
+                for k in range(4):
+                    i = (c * 2654435761 + k * 40503) % n
+                    e = self._edges[i]
+                    if self._edge_hashmap.get(e) != i:
+                        return False
+                return True
         for e, i in self._edge_hashmap.items():
             if not (isinstance(i, int) and 0 <= i < len(self._edges) and self._edges[i] == e):
                 return False
